@@ -95,6 +95,19 @@ def gen_cases(tier, seed):
                 s['plan'] = {'faults': [{'at': f'{rk}#{j}', 'phase': 'body', 'kind': 'connreset', 'bytes': rng.choice([0, 1, n]),
                                          'tag': f'FAULT-{bi}-r{j}'} for j in range(nf)]}
                 cases.append(s)
+    # two or three downloads of DIFFERENT objects aimed at the same destination name at the same time (two threads filling one
+    # cache path): each works on its own temporary file, whatever stands under the name is always one complete object
+    for i in range(30 if quick else 300):
+        n = rng.choice([2, 2, 3])
+        cfgs = dict(multipart_threshold=16, multipart_chunksize=8, io_chunksize=4, max_request_concurrency=rng.choice([2, 3]), max_submission_concurrency=n,
+                    max_io_queue_size=rng.choice([1, 2, 1000]))
+        ts = [{'kind': 'download', 'dst': 'path', 'size': rng.choice([10, 20, 27]), 'preexisting': False} for _ in range(n)]
+        for k in range(1, n):
+            ts[k]['same_dest_as'] = 0
+        ts[0]['preexisting'] = rng.random() < 0.5
+        cases.append({'seed': rng.randrange(1 << 30), 'config': cfgs, 'dirwatch': True, 'transfers': ts, 'family': 'shared-destination',
+                      'plan': {'gate': {'match': rng.choice(['/fs:write', '/s3:GetObject', '/fs:rename', '/fs:openw']), 'phase': rng.choice(['before', 'after']),
+                                        'policy': 'seeded'}}})
     # the writer lagging behind the requests: every destination write is held at a gate until the process is quiescent (all
     # requests done, the caller already waiting), and then one of the writes / the close fails
     for fe, cfgs in (('legacy', dict(multipart_threshold=16, multipart_chunksize=8, max_concurrency=3, num_download_attempts=2, max_io_queue=100)),
